@@ -35,3 +35,25 @@ func Dump(p *Program, fnKey, obl, prop, work string) {
 		}
 	}
 }
+
+// DumpAll lists every obligation generated for a function regardless of property.
+func DumpAll(p *Program, fnKey string) {
+	for k, fn := range p.Funcs {
+		if !strings.Contains(k, fnKey) {
+			continue
+		}
+		opt := VCOptions{SafetyKinds: map[string]bool{}, CandidateInvs: map[int][]*Clause{}}
+		for _, kd := range AllSafetyKinds {
+			opt.SafetyKinds[kd] = true
+		}
+		vc := NewVC(p, fn, opt)
+		err := vc.Encode()
+		fmt.Println("==", k, "err:", err)
+		for _, o := range vc.Obligations() {
+			fmt.Printf("  %-10s %v %s -- %s\n", o.Kind, o.Props, o.Name, o.Src)
+		}
+		for _, n := range vc.Notes {
+			fmt.Println("  note:", n)
+		}
+	}
+}
